@@ -197,13 +197,16 @@ def ConformsCgfx (f : Buf) (texs : List Tex) : Bool :=
 
 def pad (n k : Nat) : Nat := (n + k - 1) / k * k
 
-/-- A CI8 image with an RGB5A3 palette: payload = 8×4-blocked indices of the padded image, every
-index inside the palette. -/
+/-- A CI8 image with an RGB5A3 palette: payload = 8×4-blocked indices of the padded image; every
+index of a texel *inside* `width × height` is inside the palette.  Padding texels (outside the
+image, inside the block-aligned payload) are not part of the image and may hold any byte. -/
 def validTpl (t : Tex) : Bool :=
   t.format == 9 && 1 ≤ t.width && 1 ≤ t.height && t.width < 2 ^ 16 && t.height < 2 ^ 16 &&
   t.payload.size == pad t.height 4 * pad t.width 8 &&
   t.palette.size % 2 == 0 && 2 ≤ t.palette.size && t.palette.size / 2 < 2 ^ 16 &&
-  t.payload.all (fun b => b.toNat < t.palette.size / 2) && t.name == [] && t.stored == []
+  (List.range t.height).all (fun y => (List.range t.width).all (fun x =>
+    (t.payload.getD (Morton.ci8Offset (pad t.width 8) x y) 0).toNat < t.palette.size / 2)) &&
+  t.name == [] && t.stored == []
 
 /-- Image header at `ih` (36 bytes): height, width, format, data pointer; palette header at `ph`
 (12 bytes): entry count, format (2 = RGB5A3), data pointer. -/
